@@ -102,7 +102,8 @@ def fractional_integer_enum_cases():
     from vlib.kitchen import Case
     out = []
     n = 0
-    for vals in ([1, 2.5, 3], [0.5, 10, 20], [7, 9, 11.25], [4, 1.5, 6, 8.75, 12], [2.5]):
+    # (the last three lists: members beyond 32 bits - byte sizes, epoch milliseconds, 2^53 - which the Go int of the table holds all the same)
+    for vals in ([1, 2.5, 3], [0.5, 10, 20], [7, 9, 11.25], [4, 1.5, 6, 8.75, 12], [2.5], [1, 4294967296, -3000000000], [2147483647, 2147483648, -2147483649], [1700000000000, 9007199254740992]):
         e = {"type": "integer", "enum": vals}
         root = {"type": "object", "$defs": {"E": e}, "properties": {"level": e, "steps": {"type": "array", "items": e}, "r": {"$ref": "#/$defs/E"}}}
         members = [v for v in vals if float(v).is_integer()]
